@@ -1,7 +1,7 @@
 ------------------------------- MODULE MC_C15 -------------------------------
 (***************************************************************************)
 (* C15: frame shapes (Ethernet / raw IP / loopback framing x IPv4 header   *)
-(* lengths 0..15 x IPv6 x TCP / not TCP) carrying a SYN, a one-segment     *)
+(* lengths 0..15 x IPv6 x TCP / not TCP x version nibble) carrying a SYN, a one-segment     *)
 (* ClientHello and an HTTP exchange, with the endpoints the analyzer's own *)
 (* decoder derives (FullEndpoints) and, for every filter configuration of  *)
 (* the list, which frames the filter must admit (Filter!ShouldProcess on   *)
@@ -26,13 +26,17 @@ Hello == J!Wire([legacy |-> 771, sid |-> <<>>, ciphers |-> <<4865, 4866>>, comps
                  exts |-> <<[t |-> 0, k |-> "sni", host |-> HP!StrBytes("example.com")], [t |-> 43, k |-> "sv", versions |-> <<772>>]>>])
 StdOl == [opts |-> <<[k |-> "mss", v |-> 1460], [k |-> "sok"], [k |-> "ts", val |-> <<0, 0, 1, 44>>, ecr |-> Zero4], [k |-> "nop"], [k |-> "ws", v |-> 7]>>, trail |-> <<>>]
 
-Shapes == {[link |-> l, ver |-> 4, ihl |-> i, proto |-> p] : l \in {"eth", "raw", "null"}, i \in 0..15, p \in {6, 17}}
-          \cup {[link |-> l, ver |-> 6, ihl |-> 5, proto |-> p] : l \in {"eth", "raw", "null"}, p \in {6, 17}}
+\* vnib: the version nibble of the IP header.  Under Ethernet framing the analyzer goes by the EtherType alone, so a frame
+\* whose nibble disagrees is still analysed (and must be judged by the filter on the same endpoints)
+Shapes == {[link |-> l, ver |-> 4, vnib |-> 4, ihl |-> i, proto |-> p] : l \in {"eth", "raw", "null"}, i \in 0..15, p \in {6, 17}}
+          \cup {[link |-> l, ver |-> 6, vnib |-> 6, ihl |-> 5, proto |-> p] : l \in {"eth", "raw", "null"}, p \in {6, 17}}
+          \cup {[link |-> "eth", ver |-> 4, vnib |-> n, ihl |-> i, proto |-> 6] : n \in {0, 5, 6, 15}, i \in {4, 5, 6}}
+          \cup {[link |-> "eth", ver |-> 6, vnib |-> n, ihl |-> 5, proto |-> 6] : n \in {0, 4, 7}}
 ShapeSeq == SetToSeq(Shapes)
 
 Base(s, rev) ==
   LET b == BaseHdr(s.ver) IN
-  [b EXCEPT !.ihl = s.ihl, !.proto = s.proto, !.src = IF rev THEN b.dst ELSE b.src, !.dst = IF rev THEN b.src ELSE b.dst,
+  [b EXCEPT !.ihl = s.ihl, !.vnib = s.vnib, !.proto = s.proto, !.src = IF rev THEN b.dst ELSE b.src, !.dst = IF rev THEN b.src ELSE b.dst,
             !.sport = IF rev THEN 80 ELSE 40000, !.dport = IF rev THEN 40000 ELSE 80]
 Seg(s, rev, flags, seqlo, payload) == [Base(s, rev) EXCEPT !.flags = flags, !.seq = <<0, 0, 0, seqlo>>, !.ack = IF flags = SYN THEN Zero4 ELSE <<0, 0, 0, 9>>, !.payload = payload]
 
